@@ -63,6 +63,8 @@ type Step struct {
 	// remote level, TakeDest: the message carries REQUIRETLS for this attempt (the scripted
 	// next hops are plaintext, so the attempt is refused with 550 5.7.30)
 	Reqtls bool `json:"reqtls"`
+	// remote level, MoreRcpt: the next hop refuses this further recipient
+	Rej bool `json:"rej"`
 }
 
 type Behaviour struct {
@@ -112,9 +114,30 @@ func newGroup(c Cfg, dual bool) (*limits.Group, error) {
 
 // ---- keys --------------------------------------------------------------------
 
+// Keys of the model and their real spelling.  Two keys are special:
+//
+//	ip "lo"       a message without a TCP peer address (unix socket, locally generated): the
+//	              endpoint and the remote target limit it under 127.0.0.1
+//	source "null" the null reverse-path MAIL FROM:<>: limited under the empty sender domain
 func ipOf(k string) net.IP {
+	if k == LoKey {
+		return net.IPv4(127, 0, 0, 1)
+	}
 	n, _ := strconv.Atoi(strings.TrimPrefix(k, "i"))
 	return net.IPv4(10, 0, 0, byte(n))
+}
+
+const (
+	LoKey   = "lo"
+	NullKey = "null"
+)
+
+// srcOf is the sender domain behind a source key of the model.
+func srcOf(k string) string {
+	if k == NullKey {
+		return ""
+	}
+	return k
 }
 
 var namedIP, namedSrc, namedDst []string
@@ -128,6 +151,9 @@ func init() {
 		namedSrc = append(namedSrc, "s"+strconv.Itoa(i))
 		namedDst = append(namedDst, "d"+strconv.Itoa(i))
 	}
+	namedIP = append(namedIP, ipOf(LoKey).String())
+	ipName[ipOf(LoKey).String()] = LoKey
+	namedSrc = append(namedSrc, "")
 }
 
 // ---- callers -------------------------------------------------------------------
@@ -287,11 +313,11 @@ func (r *run) call(c *client, op, ip, src, d string) {
 		var err error
 		switch op {
 		case "TakeMsg":
-			err = r.g.TakeMsg(context.Background(), ipOf(ip), src)
+			err = r.g.TakeMsg(context.Background(), ipOf(ip), srcOf(src))
 		case "TakeDest":
 			err = r.g.TakeDest(context.Background(), d)
 		case "RelMsg":
-			r.g.ReleaseMsg(ipOf(ip), src)
+			r.g.ReleaseMsg(ipOf(ip), srcOf(src))
 		case "RelDest":
 			r.g.ReleaseDest(d)
 		}
@@ -362,6 +388,9 @@ func (r *run) snapshot() snapshot {
 			name := k
 			if sc.name == "ip" {
 				name = ipName[k]
+			}
+			if sc.name == "source" && k == "" {
+				name = NullKey
 			}
 			sems := st.Buckets[k]
 			if len(sems) == 0 {
@@ -516,7 +545,7 @@ func (r *run) step(st Step) {
 		}
 		r.fill(st.S)
 		return
-	case "Quiesced", "MailReject":
+	case "Quiesced", "MailReject", "RcptReject", "MoreRcpt":
 		return
 	}
 	c := r.client(st.M)
